@@ -285,6 +285,13 @@ func (p *TermPool) Bin(op string, a, b *Term) *Term {
 			}
 		}
 	}
+	if op == "bvor" || op == "bvadd" || op == "bvxor" {
+		// byte assembly: zext(b0) | zext(b1)<<8 | ...  ==> concat(..., b1, b0); together with the
+		// extract/concat rules this turns a little-endian decode of an encode back into the original term
+		if r := p.assemble(a, b); r != nil {
+			return r
+		}
+	}
 	if isCmp(op) {
 		if a == b {
 			switch op {
@@ -321,6 +328,94 @@ func (p *TermPool) Bin(op string, a, b *Term) *Term {
 		return p.mk(op, 0, 0, false, "", 0, 0, a, b)
 	}
 	return p.mk(op, w, 0, false, "", 0, 0, a, b)
+}
+
+// byteParts decomposes t (width w, multiple of 8) into byte terms by position (0 = least significant)
+// when t is built only from zero-extended bytes shifted by multiples of 8 and or-ed together.
+// Missing positions are known zero bytes.
+func (p *TermPool) byteParts(t *Term, depth int) (map[int]*Term, bool) {
+	if depth > 12 || t.w%8 != 0 || t.w == 0 || t.w == FW {
+		return nil, false
+	}
+	switch {
+	case t.isConst:
+		m := map[int]*Term{}
+		for i := 0; i < t.w/8; i++ {
+			if b := (t.c >> uint(8*i)) & 0xff; b != 0 {
+				m[i] = p.BV(8, b)
+			}
+		}
+		return m, true
+	case t.op == "zext":
+		in := t.args[0]
+		if in.w == 8 {
+			return map[int]*Term{0: in}, true
+		}
+		return p.byteParts(in, depth+1)
+	case t.op == "asm":
+		m := map[int]*Term{}
+		n := t.w / 8
+		for i, a := range t.args { // args are most significant first
+			if !(a.isConst && a.c == 0) {
+				m[n-1-i] = a
+			}
+		}
+		return m, true
+	case t.op == "bvshl" && t.args[1].isConst && t.args[1].c%8 == 0:
+		in, ok := p.byteParts(t.args[0], depth+1)
+		if !ok {
+			return nil, false
+		}
+		sh := int(t.args[1].c / 8)
+		m := map[int]*Term{}
+		for k, v := range in {
+			if k+sh < t.w/8 {
+				m[k+sh] = v
+			}
+		}
+		return m, true
+	case t.op == "extract" && t.p2%8 == 0 && t.w == 8:
+		return map[int]*Term{0: t}, true
+	}
+	return nil, false
+}
+
+func (p *TermPool) assemble(a, b *Term) *Term {
+	if a.w%8 != 0 || a.w < 16 {
+		return nil
+	}
+	ma, ok := p.byteParts(a, 0)
+	if !ok {
+		return nil
+	}
+	mb, ok := p.byteParts(b, 0)
+	if !ok {
+		return nil
+	}
+	for k := range mb {
+		if _, dup := ma[k]; dup {
+			return nil
+		}
+	}
+	n := a.w / 8
+	parts := make([]*Term, n)
+	for i := 0; i < n; i++ {
+		var t *Term
+		if x, ok := ma[i]; ok {
+			t = x
+		} else if x, ok := mb[i]; ok {
+			t = x
+		} else {
+			t = p.BV(8, 0)
+		}
+		parts[n-1-i] = t
+	}
+	r := p.Concat(parts)
+	if r.op == "concat" {
+		// keep a distinguishable node so that later or-steps keep assembling cheaply
+		return p.mk("asm", a.w, 0, false, "", 0, 0, parts...)
+	}
+	return r
 }
 
 func (p *TermPool) BvNot(a *Term) *Term {
@@ -499,7 +594,7 @@ func (p *TermPool) Extract(a *Term, hi, lo int) *Term {
 		if hi < in.w {
 			return p.Extract(in, hi, lo)
 		}
-	case "concat":
+	case "concat", "asm":
 		// find the pieces covered
 		pos := a.w
 		for _, part := range a.args {
@@ -830,7 +925,11 @@ func (t *Term) body() string {
 	case "uf":
 		fmt.Fprintf(&sb, "(%s %s)", t.name, t.args[0].ref())
 	default:
-		sb.WriteString("(" + t.op)
+		op := t.op
+		if op == "asm" {
+			op = "concat"
+		}
+		sb.WriteString("(" + op)
 		for _, a := range t.args {
 			sb.WriteString(" " + a.ref())
 		}
@@ -961,7 +1060,7 @@ func (p *TermPool) Eval(t *Term, m map[string]uint64, memo map[*Term]uint64) (ui
 			r = av[0]
 		case "sext":
 			r = uint64(sext(av[0], t.args[0].w)) & mask(t.w)
-		case "concat":
+		case "concat", "asm":
 			if t.w > 64 {
 				return 0, false
 			}
